@@ -2,6 +2,13 @@
 """Regenerates /verif/seeded/README.md (catch matrix of the seeded changes)."""
 import glob, json, os
 ROOT = os.path.dirname(os.path.dirname(os.path.abspath(__file__)))
+final = {}
+rp = os.path.join(ROOT, "seeded", "RECHECK.txt")
+if os.path.exists(rp):
+    for line in open(rp):
+        parts = line.strip().split(" ", 1)
+        if len(parts) == 2:
+            final[parts[0]] = parts[1]
 rows = []
 for d in sorted(glob.glob(os.path.join(ROOT, "seeded", "*", ""))):
     p = os.path.join(d, "meta.json")
@@ -11,11 +18,15 @@ for d in sorted(glob.glob(os.path.join(ROOT, "seeded", "*", ""))):
     what = (m.get("what_it_breaks") or m.get("title") or "").replace("|", "/").replace("\n", " ")
     need = (m.get("needs_to_manifest") or "").replace("|", "/").replace("\n", " ")
     rows.append(f"| {m['seeded_id']} | {', '.join(m.get('files', []))[:48]} | {what[:170]} | {need[:150]} | "
-                f"{str(m.get('caught_by')).strip('[]').replace(chr(39), '')} |")
+                f"{str(m.get('caught_by')).strip('[]').replace(chr(39), '')} | "
+                f"{final.get(m['seeded_id'], '')} |")
 out = ["# Seeded changes (independent sub-agents) and the checks that catch them", "",
        f"{len(rows)} changes; each passes the repository's own test suite, each demo fails with the change and",
        "passes without it (see meta.json / result.txt in each directory). `caught by` = quick-tier checks",
-       "(seed 0) that exit 1 on a scratch copy of /repo with the change applied (`tools/seed_eval.sh`).", "",
-       "| id | files | what it breaks | needs to manifest | caught by |", "|----|-------|----------------|-------------------|-----------|"] + rows
+       "(seed 0) that exit 1 on a scratch copy of /repo with the change applied (`tools/seed_eval.sh`) AT THE",
+       "TIME THE CHANGE WAS DELIVERED (NONE = missed then; the check was strengthened afterwards, DESIGN 9.7-9.14).",
+       "`now` = result of `tools/seeded_recheck.sh` on the final tree and final checks (seeded/RECHECK.txt).", "",
+       "| id | files | what it breaks | needs to manifest | caught by (first evaluation) | now |",
+       "|----|-------|----------------|-------------------|-----------|-----|"] + rows
 open(os.path.join(ROOT, "seeded", "README.md"), "w").write("\n".join(out) + "\n")
 print(len(rows), "rows")
